@@ -108,6 +108,7 @@ Ltac split_idx H :=
 
 Section GenRowK.
   Variable K : Fld.
+  Add Field KFrow : (@Fth K).
   Variables rd rw : K -> K.
   Variable ipart : K -> Z.
   Variable fpart : K -> K.
@@ -138,7 +139,10 @@ Section GenRowK.
     unfold rg_entry.
     destruct Hv as [Hv|[Hv|[Hv|Hv]]]; subst it; split_idx Hi; split_idx Hj;
       lookups; cbv beta iota zeta; lookups; cbv beta iota zeta;
-      rewrite !rg_origin by (unfold valid_it; tauto); wrap_norm; reflexivity.
+      rewrite !rg_origin by (unfold valid_it; tauto); wrap_norm;
+      (* the product of the two weights may be written in either order *)
+      first [ reflexivity
+            | match goal with |- (if ?c then _ else _) = _ => destruct c; [f_equal; f_equal; ring|reflexivity] end ].
   Qed.
 
 
@@ -199,6 +203,25 @@ Lemma rot_defined_range P q p :
   rot_defined P q p = true -> 0 <= Qctrunc (rot_x P q p) < 2 ^ 32 /\ 0 <= Qctrunc (rot_y P q p) < 2 ^ 32.
 Proof. unfold rot_defined. apply rg_abs_range. Qed.
 
+(** two binary32 expressions are the same float when they differ only in the order of the operands of commutative
+    operations (every operation is rounded on its own: nothing is re-associated) *)
+Ltac rg_feq :=
+  first [ reflexivity
+        | match goal with
+          | |- rnd32 _ = rnd32 _ => apply f_equal; rg_feq
+          | |- Qcplus ?a ?b = Qcplus _ _ =>
+            first [ apply f_equal2; rg_feq | rewrite (Qcplus_comm a b); apply f_equal2; rg_feq ]
+          | |- Qcmult ?a ?b = Qcmult _ _ =>
+            first [ apply f_equal2; rg_feq | rewrite (Qcmult_comm a b); apply f_equal2; rg_feq ]
+          | |- Qcminus _ _ = Qcminus _ _ => apply f_equal2; rg_feq
+          | |- Qcdiv _ _ = Qcdiv _ _ => apply f_equal2; rg_feq
+          end ].
+Ltac rg_float_eq :=
+  first [ reflexivity
+        | unfold gen_rot_c1, gen_rot_c2, rot_x, rot_y, fmulr, faddr, fsubr, fdivr;
+          change (@fmul QcF) with Qcmult; change (@fadd QcF) with Qcplus; change (@fsub QcF) with Qcminus; change (@fdiv QcF) with Qcdiv;
+          rg_feq ].
+
 Section GenIsModel.
   Variables (xs ys it : Z) (P : rot_par) (ax ay : Z -> Qc) (x0 y0 : Z).
   Hypothesis Hv : valid_it it.
@@ -207,10 +230,10 @@ Section GenIsModel.
 
   Lemma rg_c1_is_rot_x : gen_rot_c1 QcF rnd32 (rp_cos P) (rp_sin P) ax ay (rp_d0 P) (rp_d1 P) (rp_z0 P) (rp_z1 P) x0 y0
                          = rot_x P (ax x0) (ay y0).
-  Proof. reflexivity. Qed.
+  Proof. rg_float_eq. Qed.
   Lemma rg_c2_is_rot_y : gen_rot_c2 QcF rnd32 (rp_cos P) (rp_sin P) ax ay (rp_d0 P) (rp_d1 P) (rp_z0 P) (rp_z1 P) x0 y0
                          = rot_y P (ax x0) (ay y0).
-  Proof. reflexivity. Qed.
+  Proof. rg_float_eq. Qed.
 
   Lemma rg_entry_is_model (X Y : Qc) k :
     0 <= Qctrunc X < 2 ^ 32 -> 0 <= Qctrunc Y < 2 ^ 32 -> 0 <= k < it * it ->
@@ -373,12 +396,12 @@ Section ZeroAngle.
   Lemma rg_c1_zero (at0 at1 : Z -> K) d0 d1 z0 z1 x0 y0 :
     gen_rot_c1 K idK 1%F 0%F at0 at1 d0 d1 z0 z1 x0 y0 = (at0 x0 / d0 + z0)%F.
   Proof.
-    unfold gen_rot_c1, idK. assert (E : (1 * at0 x0 - 0 * at1 y0)%F = at0 x0) by ring. rewrite E. reflexivity.
+    unfold gen_rot_c1, idK. cbv beta. rewrite !(Fdiv_def (@Fth K)). ring.
   Qed.
   Lemma rg_c2_zero (at0 at1 : Z -> K) d0 d1 z0 z1 x0 y0 :
     gen_rot_c2 K idK 1%F 0%F at0 at1 d0 d1 z0 z1 x0 y0 = (at1 y0 / d1 + z1)%F.
   Proof.
-    unfold gen_rot_c2, idK. assert (E : (0 * at0 x0 + 1 * at1 y0)%F = at1 y0) by ring. rewrite E. reflexivity.
+    unfold gen_rot_c2, idK. cbv beta. rewrite !(Fdiv_def (@Fth K)). ring.
   Qed.
 
   (** the generated Ruler: at(i) / delta + zerobin = i *)
